@@ -280,6 +280,62 @@ def run(ctx):
             if any(x.endswith('ElementRaw.content') for x in f_):
                 lens.append(pos_)
     C.check(bool(nones) and bool(lens) and all(must_pass(ei, (0, 0), [n_], through=set(lens)) for n_ in nones), 'C03-MUST-enumerate', 'ElementsIterator::next|ends-only-at-item-count', 'sub_elements() can end before the index reached the number of content items', '%s:%d' % (ei.file, ei.line))
+    # the file-scoped iterator hands out an element only behind the membership test of THAT element: after a foreign subtree was skipped the
+    # next candidate is tested again (a result of the inner iterator is never returned as it is)
+    fi = P.find('<ArxmlFileElementsDfsIterator as Iterator>::next')
+    if fi is None:
+        C.anchor_missing('C03-MUST-enumerate', 'ArxmlFileElementsDfsIterator::next')
+    else:
+        tests = calls(fi, r'impl Element>::file_membership_local$|impl Element>::file_membership$')
+        inner = calls(fi, r'ElementsDfsIterator as .*Iterator>::next$|ElementsDfsIterator>?::next_sibling$|impl ElementsDfsIterator>::next_sibling$')
+        bad = []
+        somes = 0
+        for pos, st in fi.iter_stmts():
+            if st['k'] == 'assign' and st['dst']['l'] == 0 and not st['dst']['p']:
+                rv = st['rv']
+                if rv['k'] == 'agg' and rv.get('var') == 'None':
+                    continue
+                somes += 1
+                if rv['k'] == 'agg' and rv.get('var') == 'Some':
+                    from pairing import iteration_start
+                    if not (tests and must_pass(fi, iteration_start(fi, pos) if E.loops_containing(fi, [pos]) else (0, 0), [pos], through=set(tests))):
+                        bad.append(pos)
+                else:
+                    bad.append(pos)
+        for pos, t in fi.iter_calls():
+            if t['dst']['l'] == 0 and not t['dst']['p'] and not call_matches(t, r'FromResidual.*::from_residual$'):
+                somes += 1
+                bad.append(pos)
+        C.check(bool(inner) and bool(tests) and somes >= 1 and not bad, 'C03-MUST-enumerate', 'ArxmlFileElementsDfsIterator::next|every-result-passed-the-membership-test', 'the file-scoped depth-first iterator can hand out an element that was not tested for membership in the file '
+                '(the candidate found after skipping a foreign subtree is returned as it is): elements of other files show up in file.elements_dfs() and in the serialized text of the file', fi.where(bad[0]) if bad else '%s:%d' % (fi.file, fi.line),
+                sample={'fn': 'ArxmlFileElementsDfsIterator::next', 'results': somes, 'membership_tests': len(tests)})
+    # position() and get_sub_element_at() index the same sequence - the content list of the parent, text items of mixed content included
+    C.rule('C03-SIB-position', 'Element::position counts over the parent\'s ElementRaw.content itself (not over a filtered view such as sub_elements()), the list that get_sub_element_at / create_*_at / move_*_at index')
+    ep = P.get('Element::position')
+    ga = P.get('Element::get_sub_element_at')
+    FILTERED = r'::(sub_elements|filter|filter_map|flat_map|flatten|skip|skip_while|step_by|elements_dfs\w*)$|ElementsIterator'
+    def seq_class(fn_b, rx):
+        cls = set()
+        for x in P.with_closures(fn_b):
+            for q, t in x.iter_calls():
+                if call_matches(t, rx) and t['args']:
+                    n_, c_, f_ = _ds(x, t['args'][0], depth=12)
+                    if any(re.search(FILTERED, c) for c in c_):
+                        cls.add('filtered view')
+                    elif any(f.endswith('ElementRaw.content') for f in f_):
+                        cls.add('content list')
+                    else:
+                        cls.add('unknown')
+        return cls
+    pc = seq_class(ep, r'Iterator::(position|rposition|enumerate|find_map|try_fold)$|Iterator>::(position|rposition|enumerate)$')
+    gc = seq_class(ga, r'<impl \[T\]>::get$|SmallVec::<A>::get$|Vec::<T, A>::get$|Index<.*>>::index$')
+    if not pc:
+        # counted by hand: the body reads the content list itself and does not go through the element iterator
+        reads = any(is_local_op(pl) and has_field(pl, 'ElementRaw.content') for x in P.with_closures(ep) for _, role, pl, st_ in iter_uses(x))
+        pc = {'content list'} if reads and not any(calls(x, FILTERED) for x in P.with_closures(ep)) else {'unknown'}
+    C.check(pc == {'content list'} and gc <= {'content list'}, 'C03-SIB-position', 'position|counts-the-list-that-positions-index', 'Element::position counts over %s while get_sub_element_at indexes %s: in a mixed-content element (text between sub elements) '
+            'the reported position no longer indexes the element in its parent (parent.get_sub_element_at(e.position()) is another element or None)' % (sorted(pc), sorted(gc) or ['the content list']), '%s:%d' % (ep.file, ep.line),
+            sample={'position_counts_over': sorted(pc), 'get_sub_element_at_indexes': sorted(gc)})
     # a file merge never links one element twice: an element of the new file is merged into its counterpart OR imported
     C.rule('C03-DEV-merge-disjoint', 'in merge_element an element of the new file is queued for import only over the false edge of "already paired with a model element": otherwise it would stay a child of its old parent content AND be inserted below the model parent (two parents, subtree visited twice)')
     from c09 import dev_bonly
